@@ -105,15 +105,24 @@ pub fn read_facts_and_rules(file_name: &str) -> Result<Vec<String>, String> {
 
             let mut line_number = 1;
             for line in lines {
-                if let Ok(line) = line {
-                    let line = strip_comments(&line);
-                    if line.len() > 0 {
-                        match check_last_char(&line, line_number) {
-                            Some(msg) => { return Err(msg); },
-                            None => { long_line += &line; },
+                match line {
+                    Ok(line) => {
+                        let line = strip_comments(&line);
+                        if line.len() > 0 {
+                            match check_last_char(&line, line_number) {
+                                Some(msg) => { return Err(msg); },
+                                None => { long_line += &line; },
+                            }
+                            rules.push(line);
                         }
-                        rules.push(line);
-                    }
+                    },
+                    Err(err) => {
+                        // A line which cannot be read (eg. invalid UTF-8)
+                        // must not be left out silently.
+                        let msg = format!("Cannot read line {}: {}: {}",
+                                          line_number, err, file_name);
+                        return Err(msg);
+                    },
                 }
                 line_number += 1;
             }
